@@ -36,18 +36,19 @@ WantLen(h) == IF kind = "v4" THEN 32
               ELSE IF h.bits = 128 /\ h.len > page THEN h.len ELSE page
 WantBits == IF kind = "v4" THEN 32 ELSE 128
 NamesFree(h) == h.k = "blk" /\ h.b \notin out
+Full == Cardinality(out) = N                        \* (out is a subset of Blocks; pools of a million blocks are not enumerated)
 
 TraceAlloc ==
   /\ IsEvent("alloc")
   /\ LET e == Trace[l]  h == e.hint  r == e.res IN
      /\ ("C04" \in Lens) => (r.ok /\ r.inpool => r.b \notin out)
      /\ ("C05" \in Lens) =>
-          /\ r.ok <=> (out # Blocks)
+          /\ r.ok <=> ~Full
           /\ ~r.ok => r.err = "noaddr"
           /\ r.ok  => r.inpool /\ r.aligned /\ r.len = WantLen(h) /\ r.bits = WantBits
      /\ ("C06" \in Lens) =>
           /\ r.ok /\ r.inpool => r.b \notin out      \* nobody's block is handed out again
-          /\ ~r.ok => out = Blocks                   \* what Free released is available again
+          /\ ~r.ok => Full                           \* what Free released is available again
      /\ ("C07" \in Lens) => (NamesFree(h) => r.ok /\ r.inpool /\ r.b = h.b)
      /\ out' = IF r.ok /\ r.inpool THEN out \cup {r.b} ELSE out
   /\ UNCHANGED <<kind, N, page, pend>>
@@ -91,7 +92,8 @@ TraceInit == l = 1 /\ kind = "v4" /\ N = 0 /\ page = 0 /\ out = {} /\ pend = << 
 TraceHuge == /\ IsEvent("huge")
              /\ ("C05" \in Lens) => (Trace[l].ctor = "err" \/ (Trace[l].ctor = "ok" /\ Trace[l].alloc = "ok"))
              /\ UNCHANGED <<kind, N, page, out, pend>>
-TraceNext == TraceReset \/ TraceAlloc \/ TraceFree \/ TraceSet \/ TraceClear \/ TraceRet \/ TraceHuge
+TraceNote == IsEvent("note") /\ UNCHANGED <<kind, N, page, out, pend>>
+TraceNext == TraceReset \/ TraceAlloc \/ TraceFree \/ TraceSet \/ TraceClear \/ TraceRet \/ TraceHuge \/ TraceNote
 TraceSpec == TraceInit /\ [][TraceNext]_tvars
 
 \* harness-side sanity (a violation is a harness error, not a verdict)
